@@ -145,7 +145,8 @@ func (eval Evaluator) MultiplyByDiagMatrix(ctIn *rlwe.Ciphertext, matrix LinearT
 	ringQ := ringQP.RingQ
 	ringP := ringQP.RingP
 
-	opOut.Resize(opOut.Degree(), levelQ)
+	// The result has degree 1: a receiver of larger degree must not keep its old components.
+	opOut.Resize(1, levelQ)
 
 	QiOverF := params.QiOverflowMargin(levelQ)
 	PiOverF := params.PiOverflowMargin(levelP)
@@ -270,7 +271,8 @@ func (eval Evaluator) MultiplyByDiagMatrixBSGS(ctIn *rlwe.Ciphertext, matrix Lin
 	ringQ := ringQP.RingQ
 	ringP := ringQP.RingP
 
-	opOut.Resize(opOut.Degree(), levelQ)
+	// The result has degree 1: a receiver of larger degree must not keep its old components.
+	opOut.Resize(1, levelQ)
 
 	QiOverF := params.QiOverflowMargin(levelQ) >> 1
 	PiOverF := params.PiOverflowMargin(levelP) >> 1
